@@ -490,9 +490,11 @@ class _ConvRec(FinamInterp):
             return Sym("transformed", args[0])
         return super().call_hook(fv, args, kwargs, node, mod)
 
+    n_time = 1
+
     def get_attr(self, obj, attr, node, mod):
         if isinstance(obj, Sym) and attr == "shape" and obj.op in ("raw", "transformed", "item"):
-            return (1, Sym("n"))
+            return (self.n_time, Sym("n"))
         if isinstance(obj, Sym) and attr in ("size", "magnitude", "units"):
             return Sym("attr", obj, attr)
         return super().get_attr(obj, attr, node, mod)
@@ -501,6 +503,16 @@ class _ConvRec(FinamInterp):
         if isinstance(c, Sym):
             return Sym("item", c, repr(k))
         return super().sym_item(c, k, node)
+
+    def ext_call(self, name, args, kwargs, node):
+        short = name.split(".")[-1]
+        if short == "isMaskedArray":
+            return False
+        if short == "stack":
+            return Sym("stack", tuple(args[0]))
+        if short == "Quantity":
+            return Sym("qty", args[0], args[1])
+        return super().ext_call(name, args, kwargs, node)
 
 
 def r18_pullpath(repo, sink):
@@ -537,6 +549,30 @@ def r18_pullpath(repo, sink):
             why = "unit conversion runs on the untransformed data"
         sink.check(why is None, "R18", f"convert:{'with' if with_tr else 'without'}-transform", cc,
                    ok="transform (if any) -> to_units(input units, check_equivalent) -> check(input info) -> return", bad=why or "")
+    # several time entries (e.g. behind StackTime): the re-assembled array keeps the units of the transformed slices
+    it = _ConvRec(repo)
+    it.n_time = 2
+    me = Obj(cls=inp, label="Input")
+    info = Obj(label="in_info", fields={"units": Sym("u_in")})
+    me.fields.update(_transform=Sym("transform"), _input_info=info, logger=Logger(label="logger"), name="in")
+    try:
+        it.run(cc, [Sym("raw")], self_obj=me)
+        tu = [e for e in it.events if e[0] == "to_units"]
+        arg = tu[0][1] if tu else None
+        ok = len([e for e in it.events if e[0] == "transform"]) == 2 and tu
+        if ok and isinstance(arg, Sym) and arg.op == "qty":
+            units = arg.args[1]
+            ok = "transformed" in repr(units) and "u_in" not in repr(units)
+            why = f"re-assembled time slices are labelled with {units!r}"
+        elif ok:
+            why = ""
+        else:
+            why = f"stages {[e[0] for e in it.events]}"
+        sink.check(bool(ok), "R18", "convert:several-time-entries", cc,
+                   ok="every time slice is transformed; the re-assembled data keeps the slices' own units before the unit conversion",
+                   bad=why + ": labelling them with the input's units turns the following conversion into a no-op (1000 m arrive as 1000 km)")
+    except (Raised, Undecided, AnalysisError) as exc:
+        sink.unknown("R18", "convert:several-time-entries", cc, f"outside vocabulary: {exc}")
     f = repo.resolve(inp, "pull_data", "method")
     gets = [c for c in calls(f.node, "get_data")]
     sink.floor("R18", "source.get_data sites in Input.pull_data", len(gets), 1, f)
@@ -595,6 +631,8 @@ def r40_cbtime(repo, sink):
             def call_hook(self, fv, args, kwargs, node, mod):
                 if isinstance(fv, Closure) and getattr(fv.func, "name", "") == "strip_time":
                     return Sym("st", args[0])
+                if isinstance(fv, Closure) and getattr(fv.func, "name", "") == "get_magnitude":
+                    return Sym("magnitude", args[0])
                 if isinstance(fv, Sym) and fv.op == "stubcall" and fv.args[1] == "pull_data":
                     self.pulled.append((fv.args[0].obj.fields["name"], args[0]))
                     return Sym("v", fv.args[0].obj.fields["name"], args[0])
@@ -605,7 +643,19 @@ def r40_cbtime(repo, sink):
             def get_attr(self, obj, attr, node, mod):
                 if isinstance(obj, Sym) and attr == "copy":
                     return Sym("method", obj, "copy")
+                if isinstance(obj, Sym) and attr in ("magnitude", "units"):
+                    return Sym(attr, obj)
                 return super().get_attr(obj, attr, node, mod)
+
+            def ext_isinstance(self, v, name, node):
+                if name.endswith("Quantity"):
+                    return isinstance(v, Sym)
+                return super().ext_isinstance(v, name, node)
+
+            def ext_call(self, name, args, kwargs, node):
+                if name.endswith("Quantity"):
+                    return Sym("requantified", args[0], args[1] if len(args) > 1 else None)
+                return super().ext_call(name, args, kwargs, node)
 
         inputs = {}
         for n in names:
@@ -614,7 +664,8 @@ def r40_cbtime(repo, sink):
                 st.fields["name"] = nm
                 inputs[nm] = st
         me = Obj(cls=wc, label="WeightedSum")
-        me.fields.update(_input_names=list(names), _grid=Sym("grid"), _in_data={"x": 1}, _out_data=None, _last_update=None,
+        stale = {nm: Sym("stale-connect-phase-data", nm) for nm in inputs}
+        me.fields.update(_input_names=list(names), _grid=Sym("grid"), _in_data=stale, _out_data=None, _last_update=None, _units=Sym("units_of_first_input"),
                          status=Sym("enum", "ComponentStatus", "VALIDATED"), inputs=inputs, logger=Logger(label="logger"))
         it = _WS(repo)
         q, q2 = Sym("q"), Sym("q2")
